@@ -491,23 +491,46 @@ pub fn mention_generated_vftable(rng: &mut Rng, p: &mut Project) -> bool {
     for _ in 0..n_mentions {
         let idx = p.items.len();
         let vty = Ty::Name(vname.clone());
-        match rng.below(5) {
+        match rng.below(6) {
+            5 => {
+                // An enum over the name.
+                p.items.push(Item {
+                    module: m,
+                    name: format!("EU{idx}"),
+                    vis: true,
+                    doc: None,
+                    kind: ItemKind::Enum {
+                        base: vty,
+                        variants: vec![("Only".into(), None, false)],
+                        flags: Flags::default(),
+                        singleton: None,
+                    },
+                    csize: 0,
+                    calign: 1,
+                    vslots: None,
+                });
+                let pos = rng.below(p.modules[m].order.len() + 1);
+                p.modules[m].order.insert(pos, Decl::Item(idx));
+            }
             0 | 1 => {
-                // A new type with a function whose parameter / return type is the name.
+                // A new type with a function whose parameter / return type is the name, behind
+                // a pointer or by value.
                 let as_param = rng.chance(1, 2);
+                let by_value = rng.chance(1, 3);
+                let mention = if by_value { vty.clone() } else { vty.clone().cptr() };
                 let f = Func {
                     vis: true,
                     name: format!("vf{idx}"),
                     recv: Some(false),
                     args: if as_param {
-                        vec![("table".into(), vty.clone().cptr())]
+                        vec![("table".into(), mention.clone())]
                     } else {
                         vec![]
                     },
                     ret: if as_param && rng.chance(1, 2) {
                         None
                     } else {
-                        Some(vty.clone().cptr())
+                        Some(mention.clone())
                     },
                     address: Some(0x5000 + idx),
                     index: None,
